@@ -30,8 +30,12 @@ RULES = {
     "maps a collection of the original (inputs, outputs, initializers, nodes, attributes, functions) to its image in the clone has "
     "no filter on the source element - the only admitted filter tests the *result* of the cloning call for None - so the clone "
     "holds an image of every element: a value that is both an input and an initializer stays an initializer of the clone",
+    "R8": "every reference of the clone points into the clone (shared with C18-R6): in Cloner.clone_graph the values of `graph.outputs` are "
+    "resolved strictly - by a method that only reads the value map, or by `map[v]` - never by `.get(v, v)`, a creating lookup or the "
+    "output itself: an output that was not cloned (a value produced outside a view) must make the clone raise, not become an output of "
+    "the clone that IS the original's value (the new graph then marks the original's value as its own output)",
 }
-FLOORS = {"R1": 26, "R2": 30, "R3": 2, "R4": 1, "R5": 2, "R6": 1, "R7": 7}
+FLOORS = {"R1": 26, "R2": 30, "R3": 2, "R4": 1, "R5": 2, "R6": 1, "R7": 7, "R8": 1}
 EXPLANATION = (
     "A sharing analysis over the cloner and the clone() methods: each data flow original.field → clone is classified "
     "by the mutability of the field's declared class (computed from the source: setters, __setitem__, self-stores) "
@@ -717,8 +721,9 @@ def rule_r7(ctx):
 
 
 def run(ctx):
-    from . import c03
+    from . import c03, c18
 
+    c18.rule_r6(ctx, rule="R8", consequence="the clone's output IS a value of the original: renaming or re-typing it changes the original model, and the original's value is marked as a graph output of the clone")
     rule_r7(ctx)
 
     c03.rule_r6(ctx, rule="R6", extra="; with a clone, renaming the initializer on one copy changes what the other copy serializes to")
